@@ -836,7 +836,7 @@ func (sc *scenario) run(maxOps int) {
 			sc.catchUp(f, w.Nodes[0], sc.clock, 3)
 		}
 	}
-	for step := 0; step < maxOps && len(w.Failures) == 0; step++ {
+	for step := 0; step < maxOps && w.Continue(); step++ {
 		n := pick(r, w.Nodes)
 		roll := r.Intn(100)
 		if sc.profile == "alias" && r.Intn(4) == 0 {
@@ -1011,7 +1011,7 @@ func (sc *scenario) runAgree(maxOps int) {
 	w.Tick(f, T0) // private first block, then adopt the leader's chain
 	sc.catchUp(f, a, sc.clock, 3)
 	bound := func() int { return 2 + ceilDiv(len(a.AllBlocks()), int(S.BlocksLimit)-1) }
-	for step := 0; step < maxOps && len(w.Failures) == 0; step++ {
+	for step := 0; step < maxOps && w.Continue(); step++ {
 		// some submissions on the leader
 		for k := r.Intn(4); k > 0; k-- {
 			tx, kind := sc.makeTx(a, sc.txKind())
@@ -1113,7 +1113,7 @@ func (sc *scenario) runCatchup(maxOps int) {
 	w.Tick(a, sc.clock)
 	spare := 1
 	target := 2 + r.Intn(maxOps)
-	for len(a.AllBlocks()) < target && len(w.Failures) == 0 {
+	for len(a.AllBlocks()) < target && w.Continue() {
 		for k := r.Intn(3); k > 0; k-- {
 			tx, _ := sc.makeTx(a, pick(r, []string{"valid", "valid", "consolidate", "yield-new", "fee-exact", "zero-output"}))
 			if tx != nil {
@@ -1139,7 +1139,7 @@ func (sc *scenario) runCatchup(maxOps int) {
 		return
 	}
 	// every started follower (prefix holders) and one private newcomer catch up
-	for i := 1; i < len(w.Nodes) && len(w.Failures) == 0; i++ {
+	for i := 1; i < len(w.Nodes) && w.Continue(); i++ {
 		f := w.Nodes[i]
 		distinct := 0
 		if len(f.AllBlocks()) == 0 {
@@ -1228,7 +1228,7 @@ func (sc *scenario) runFork(maxOps int) {
 	}
 	nodes := []*node.Node{a, b, c}
 	rounds := 2 + r.Intn(4)
-	for round := 0; round < rounds && len(w.Failures) == 0; round++ {
+	for round := 0; round < rounds && w.Continue(); round++ {
 		host := pick(r, nodes)
 		k := 1 + r.Intn(6)
 		var nb []trace.Neighbour
@@ -1289,7 +1289,7 @@ func (sc *scenario) runLongPrefix() {
 	L := pick(r, []int{33, 33, 34, 37, 38, 41, 65, 66})
 	sc.clock = T0
 	w.Tick(a, sc.clock)
-	for len(a.AllBlocks()) < L && len(w.Failures) == 0 {
+	for len(a.AllBlocks()) < L && w.Continue() {
 		if r.Intn(6) == 0 {
 			if tx, _ := sc.makeTx(a, pick(r, []string{"valid", "yield-new"})); tx != nil {
 				if w.Submit(a, tx).Info["submit"] == "admitted" {
@@ -1316,7 +1316,7 @@ func (sc *scenario) runLongPrefix() {
 	sc.clock += S.Interval
 	w.Tick(a, sc.clock)
 	w.Tick(b, sc.clock)
-	for round := 0; round < 2 && len(w.Failures) == 0; round++ {
+	for round := 0; round < 2 && w.Continue(); round++ {
 		good, bad := a, b
 		if r.Intn(2) == 0 {
 			good, bad = b, a
@@ -1358,7 +1358,7 @@ func (sc *scenario) runTips() {
 	L := 3 + r.Intn(11)
 	sc.clock = T0
 	w.Tick(a, sc.clock)
-	for len(a.AllBlocks()) < L && len(w.Failures) == 0 {
+	for len(a.AllBlocks()) < L && w.Continue() {
 		if r.Intn(4) == 0 {
 			if tx, _ := sc.makeTx(a, "valid"); tx != nil {
 				w.Submit(a, tx)
@@ -1375,7 +1375,7 @@ func (sc *scenario) runTips() {
 	}
 	sc.mark("adopted")
 	nodes := []*node.Node{a, b, c}
-	for round := 0; round < 3 && len(w.Failures) == 0; round++ {
+	for round := 0; round < 3 && w.Continue(); round++ {
 		sc.clock += S.Interval
 		for _, n := range nodes {
 			w.Tick(n, sc.clock) // competing tips on the shared chain
@@ -1436,7 +1436,7 @@ func (sc *scenario) runFaults(maxOps int) {
 			w.RegSync(a, []string{a.Validator}, nil)
 		}
 	}
-	for round := 0; round < maxOps/3 && len(w.Failures) == 0; round++ {
+	for round := 0; round < maxOps/3 && w.Continue(); round++ {
 		before, _, _ := a.Observe()
 		var nb []trace.Neighbour
 		k := 1 + r.Intn(8)
